@@ -57,6 +57,14 @@ def app_visible_future_attrs(ctx):
         for v in values:
             if isinstance(v, ast.Await):
                 v = v.value
+            # a task / shield around the future still resolves with it
+            while isinstance(v, ast.Call) and v.args and (
+                    isinstance(v.func, ast.Name) and v.func.id in ('ensure_future', 'create_task', 'shield') or
+                    isinstance(v.func, ast.Attribute) and v.func.attr in ('ensure_future', 'create_task', 'shield',
+                                                                          'wait_for')):
+                v = v.args[0]
+            if isinstance(v, ast.Await):
+                v = v.value
             if isinstance(v, ast.Attribute):
                 attrs.setdefault(v.attr, f)
             elif isinstance(v, ast.Call) and isinstance(v.func, ast.Attribute) and depth[f] < 2:
